@@ -913,3 +913,55 @@ package hotline
 //@   requires cc != nil
 //@   before call builtin.append assert c.ID != cc.ID
 //@   loop 1 reaches builtin.append when c.ID != cc.ID
+
+// ---------------------------------------------------------------------------------
+// C13 / C14 / C17: leaving, broadcasting, dispatching.
+// Disconnect removes exactly this client from the registry BEFORE it builds the user-left notices
+// (so the leaver is not among the recipients and later lookups of its ID fail), sends one notice
+// per remaining client, and closes the connection on every path.
+
+//@ func (cc *ClientConn) Disconnect()
+//@   property C13 C17
+//@   requires cc != nil
+//@   before call (hotline.ClientManager).Delete assert arg1 == old(cc.ID)
+//@   before call hotline.NewTransaction assert arg0[0] == 1 && arg0[1] == 46 && callarg("(hotline.ClientManager).Delete", 1) == old(cc.ID)
+//@   before call hotline.NewField assert arg0[0] == 0 && arg0[1] == 103 && ptsto(arg1, cc.ID) && len(arg1) == 2
+//@   before call (*hotline.ClientConn).NotifyOthers assert arg0 == cc
+//@   loop 1 reaches send
+//@   ensures called("Close")
+
+// A broadcast builds one transaction of the given type per registered client, addressed to it.
+
+//@ func (cc *ClientConn) SendAll(t [2]byte, fields ...Field)
+//@   property C12 C13
+//@   requires cc != nil
+//@   before call hotline.NewTransaction assert arg0 == t && arg1 == c.ID
+//@   loop 1 reaches hotline.NewTransaction
+//@   loop 1 reaches send
+
+//@ func (s *Server) SendAll(t TranType, fields ...Field)
+//@   property C12 C13
+//@   requires s != nil
+//@   before call hotline.NewTransaction assert arg0 == t && arg1 == c.ID
+//@   loop 1 reaches hotline.NewTransaction
+//@   loop 1 reaches send
+
+// Every transaction a handler returns is put on the outbox; any request but a keep-alive resets
+// the idle timer under the connection's mutex.
+
+//@ func (cc *ClientConn) handleTransaction(transaction Transaction)
+//@   property C13 C14
+//@   requires cc != nil
+//@   loop 1 reaches send
+//@   guarded_by cc.mu: IdleTime
+
+//@ func (ft *FileTransfer) ItemCount() (r int)
+//@   property C10
+//@   requires ft != nil && len(ft.FolderItemCount) >= 2
+//@   ensures r == u16(bytes(ft.FolderItemCount))
+//@   modifies nothing
+//@   nopanic
+
+//@ func (f *Field) DecodeObfuscatedString() (r string)
+//@   property C01 C15
+//@   before call hotline.EncodeString assert same(arg0, f.Data)
